@@ -848,7 +848,16 @@ class TokenizerCore:
             if self._scan_comment(word):
                 return
             if prev_space or single_token or not char:
-                self._advance(size - 1)
+                if " " in word and (
+                    "\n" in sql[self._current : self._current + size - 1]
+                    or "\r" in sql[self._current : self._current + size - 1]
+                ):
+                    # the whitespace folded inside a multi-word keyword contains a line break,
+                    # which _advance only accounts for when stepping over it
+                    for _ in range(size - 1):
+                        self._advance()
+                else:
+                    self._advance(size - 1)
                 word = word.upper()
                 self._add(self.keywords[word], text=word)
                 return
